@@ -55,7 +55,7 @@ def make_fn(nnx, mods, vts, script, ret=None):
         setattr(obj, key, nav_real(nnx, args[op['arg2'] - 1], op['path2']))
     total = jnp.zeros((), jnp.int32)
     for _, v in nnx.to_flat_state(nnx.state(args[0], nnx.Variable)):
-      total = total + jnp.asarray(v.value, jnp.int32)
+      total = total + jnp.asarray(v.value, jnp.int32) + (1000 if v.get_metadata().get('tag') == 'm1' else 0)      # reads a metadata attribute
     if captured is not None:
       if ret['wrap']:
         holder = mods['B']()
@@ -195,6 +195,13 @@ def replay(chk, beh, idx, nnx, mods, vts):
   cached = None
   heap = heap0
   for c in beh['calls']:
+    if c['outcome'] == 'flip':      # the caller changes a metadata attribute of one of its Variables between two calls
+      pairs = {}
+      for ai, a in enumerate(beh['args']):
+        identity_walk(nnx, heap, a, args[ai], set(), pairs)
+      heap = c['heap']
+      pairs[c['retid']].tag = 'm1' if heap[c['retid'] - 1]['meta'] else 'm0'
+      continue
     before = canon_real_multi(args, nnx, mods, vts)
     pairs_before = {}
     for ai, a in enumerate(beh['args']):
@@ -268,7 +275,7 @@ def _total(nnx, root):
   import jax.numpy as jnp
   total = jnp.zeros((), jnp.int32)
   for _, v in nnx.to_flat_state(nnx.state(root, nnx.Variable)):
-    total = total + jnp.asarray(v.value, jnp.int32)
+    total = total + jnp.asarray(v.value, jnp.int32) + (1000 if v.get_metadata().get('tag') == 'm1' else 0)
   return total
 
 
@@ -299,6 +306,33 @@ def main(chk):
   chk.cov['behaviours_replayed'] = n
   chk.assumptions.append('the 4-step split/merge protocol itself is not modelled; the specification gives the reference (eager) semantics, '
                          'cross-checked at run time by a real eager run on a clone')
+  # ---- Variables with value hooks: what the function reads (hooked) and what the transform carries (raw) must not be confused
+  def hooked_history(wrap):
+    class H(nnx.Module):
+      def __init__(self):
+        self.w = nnx.Param(jnp.asarray(3, jnp.int32), on_get_value=lambda var, v: v + 100)
+        self.acc = nnx.Variable(jnp.asarray(0, jnp.int32))
+
+    def step(m):
+      m.acc.value = m.acc.value + m.w.value      # reads through the hook: 103
+      return m.w.value
+    m = H()
+    f = wrap(step, m)
+    outs = [int(f()) for _ in range(3)]
+    return outs, int(m.acc.value), int(m.w.raw_value)
+  import jax.numpy as jnp
+  ref = hooked_history(lambda fn, m: (lambda: fn(m)))
+  for name, wrap in (('jit', lambda fn, m: (lambda: nnx.jit(fn)(m))), ('remat', lambda fn, m: (lambda: nnx.remat(fn)(m))),
+                     ('cached_partial', lambda fn, m: nnx.cached_partial(nnx.jit(fn), m))):
+    chk.count(('C04:hooked', name))
+    try:
+      got = hooked_history(wrap)
+    except Exception as e:
+      chk.violation(f'C04:hooked-variable|{name}|', f'raised {type(e).__name__}: {str(e)[:160]}', {})
+      continue
+    if got != ref:
+      chk.violation(f'C04:hooked-variable|{name}|', f'a Variable with an on_get_value hook under nnx.{name}: (returned values, accumulator, raw value) '
+                                                    f'{got}, eager {ref}', {})
   chk.finish(rule=('object graphs (<= 4 objects + created ones, sharing / cycles / containers), 1-2 arguments (the second may alias into the '
                    'first), edit scripts of <= 3 path-addressed ops, transform in {jit, remat, cond, switch, while_loop, fori_loop, '
                    'cached_partial, eager}, trip counts 1-2, 2 consecutive calls of the same transformed function; from tlc -simulate'),
